@@ -84,10 +84,14 @@ func (l *maximumWaitStopConstraintImpl) EstimateIsViolated(
 			stopPositionsCount--
 		}
 
+		// The rest of the route keeps its schedule once the arrival at and the
+		// end of a planned stop are unchanged. The end has to be compared as
+		// well, the time spent at a stop can depend on the stop in front of it.
 		if !isDependentOnTime &&
 			stopPositionsCount == 0 &&
 			to.IsPlanned() &&
-			arrival == to.ArrivalValue() {
+			arrival == to.ArrivalValue() &&
+			previousEnd == to.EndValue() {
 			break
 		}
 
